@@ -450,7 +450,7 @@ fn parts(ctx: &Ctx) -> Vec<PartSpec> {
         v.push(PartSpec::new("e3-d4-1shard", json!({"depth": 4})).cpus("0").budget(45.0));
         v.push(PartSpec::new("e3-d3-2shards", json!({"depth": 3})).cpus("0,1"));
         v.push(PartSpec::new("e3-d3-16shards", json!({"depth": 3})));
-        for s in ["create-create-delete", "create-retain-clear", "two-kinds-two-keys", "shared-static-key", "histogram-gauge-race"] {
+        for s in ["create-create-delete", "create-retain-clear", "two-kinds-two-keys", "shared-static-key", "histogram-gauge-race", "two-removers", "remover-vs-sweeps"] {
             v.push(PartSpec::new(&format!("e1-{}-pb2", s), json!({"e1": s, "pb": 2})).cpus("0"));
         }
         // with 16 shards a wrong hash also selects a wrong shard
@@ -462,7 +462,7 @@ fn parts(ctx: &Ctx) -> Vec<PartSpec> {
         }
         v.push(PartSpec::new("e3-d4-2shards", json!({"depth": 4})).cpus("0,1").budget(1500.0));
         v.push(PartSpec::new("e3-d4-16shards", json!({"depth": 4})).budget(1500.0));
-        for s in ["create-create-delete", "create-retain-clear", "two-kinds-two-keys", "shared-static-key", "histogram-gauge-race"] {
+        for s in ["create-create-delete", "create-retain-clear", "two-kinds-two-keys", "shared-static-key", "histogram-gauge-race", "two-removers", "remover-vs-sweeps"] {
             v.push(PartSpec::new(&format!("e1-{}-pb3", s), json!({"e1": s, "pb": 3})).cpus("1").budget(1500.0));
         }
         v.push(PartSpec::new("e1-create-create-delete-pb2-16shards", json!({"e1": "create-create-delete", "pb": 2})).budget(1500.0));
@@ -480,6 +480,8 @@ fn run(ctx: &Ctx, spec: &PartSpec) -> PartResult {
             "create-create-delete" => e1_scenario("t0 goc(C,k1) x2 | t1 goc(C,k1'), get(C,k1) | t2 del(C,k1), goc(C,k1)", vec![vec![Op::Goc(C, 0), Op::Goc(C, 0)], vec![Op::Goc(C, 1), Op::Get(C, 0)], vec![Op::Del(C, 0), Op::Goc(C, 0)]]),
             "shared-static-key" => e1_scenario("t0 goc(C,&SHARED), get(C,k1) | t1 goc(C,&SHARED) x2 | t2 goc(C,k1 owned), goc(G,&SHARED)  (SHARED = one static key object whose hash is not memoised yet)", vec![vec![Op::GocShared(C), Op::Get(C, 0)], vec![Op::GocShared(C), Op::GocShared(C)], vec![Op::Goc(C, 0), Op::GocShared(G)]]),
             "histogram-gauge-race" => e1_scenario("t0 goc(H,k1), goc(G,k1) | t1 goc(H,k1'), goc(G,k1') | t2 goc(H,k1), get(G,k1)  (the three kinds have separate get-or-create code paths)", vec![vec![Op::Goc(H, 0), Op::Goc(G, 0)], vec![Op::Goc(H, 1), Op::Goc(G, 1)], vec![Op::Goc(H, 0), Op::Get(G, 0)]]),
+            "two-removers" => e1_scenario("t0 goc(C,k1), del(C,k1) | t1 del(C,k1') x2 | t2 goc(C,k1), del(C,k1)  (removers of one key racing each other: exactly one may report the removal of each storage)", vec![vec![Op::Goc(C, 0), Op::Del(C, 0)], vec![Op::Del(C, 1), Op::Del(C, 1)], vec![Op::Goc(C, 0), Op::Del(C, 0)]]),
+            "remover-vs-sweeps" => e1_scenario("t0 goc(G,k1), del(G,k1) | t1 goc(H,k1'), retain(G, drop all), del(H,k1) | t2 clear, del(G,k1'), del(H,k1')", vec![vec![Op::Goc(G, 0), Op::Del(G, 0)], vec![Op::Goc(H, 1), Op::Retain(G, Pred::DropAll), Op::Del(H, 0)], vec![Op::Clear, Op::Del(G, 1), Op::Del(H, 1)]]),
             "create-retain-clear" => e1_scenario("t0 goc(C,k1), goc(C,k3) | t1 retain(C,keep k1), goc(C,k1') | t2 clear, get(C,k1)", vec![vec![Op::Goc(C, 0), Op::Goc(C, 3)], vec![Op::Retain(C, Pred::KeepK1), Op::Goc(C, 1)], vec![Op::Clear, Op::Get(C, 0)]]),
             _ => e1_scenario("t0 goc(C,k1), goc(G,k1) | t1 goc(G,k1'), del(C,k1') | t2 goc(C,k2), visit(C)", vec![vec![Op::Goc(C, 0), Op::Goc(G, 0)], vec![Op::Goc(G, 0), Op::Del(C, 1)], vec![Op::Goc(C, 2), Op::Visit(C)]]),
         };
